@@ -267,6 +267,16 @@ func (r *Run) DumpReplay(c any, why string) string {
 	return abs
 }
 
+// Abort reports a violation that cannot be shrunk or survived (e.g. a call that
+// never returns and keeps a goroutine spinning): it writes the replay file and
+// the statistics and terminates the process with exit status 1.
+func (r *Run) Abort(c any, why string) {
+	r.DumpReplay(c, why)
+	fmt.Printf("VF-ABORT %s\n", why)
+	r.flush(true, why)
+	os.Exit(1)
+}
+
 // End must be deferred by the Test function: it writes the stats line and, if
 // the test failed, the replay file of the last evaluated case.
 func (r *Run) End(t testing.TB) {
